@@ -168,3 +168,32 @@ Example C05_history_restart_nonvacuous :
   | None => False
   end.
 Proof. exact restart_history_example. Qed.
+
+(* ... and the database: position, size, the kept files and EVERY logical page ([lpage]: the log's last committed version
+   of the page, else the file's) are what they were before the restart; the log has been checkpointed into the file.
+   No follower is involved (the invariant: the newest file agrees with the logical database, along every history). *)
+Require Import LF.Proofs.FollowProofs LF.Proofs.FollowWalProofs LF.Proofs.PrimaryRestartProofs.
+Theorem C05_history_restart_keeps_database : forall lock gs s v s',
+  1 <= lock -> wf_gsteps (init lock) gs -> run_gsteps (init lock) (fun _ => 0) gs = Some (s, v) ->
+  wf_restart s -> grun s GRestart = Some s' ->
+  txid s' = txid s /\ chk s' = chk s /\ pageN s' = pageN s /\ ltxdir s' = ltxdir s /\ wal_file s' = [] /\
+  (forall p, 1 <= p <= pageN s -> lpage s' p = lpage s p).
+Proof. exact g_history_restart_keeps_database. Qed.
+Print Assumptions C05_history_restart_keeps_database.
+
+(* Non-vacuity: the same history; before the restart pages 1 and 2 of the file are older versions and page 3 is only in
+   the log, afterwards the file holds the three logical pages *)
+Example C05_history_restart_database_nonvacuous :
+  let pw h n := mkPg (fl h) n true in
+  wf_gsteps (init 2097153) restart_example_history /\
+  match run_gsteps (init 2097153) (fun _ => 0) restart_example_history with
+  | Some (s, _) =>
+      wf_restart s /\
+      match grun s GRestart with
+      | Some s' => (map (lpage s) [1; 2; 3], map (lpage s') [1; 2; 3], map (fpg s) [1; 2], lenN (dbfile s), map (fpg s') [1; 2; 3])
+                   = ([pw 14 3; pw 23 0; pw 33 0], [pw 14 3; pw 23 0; pw 33 0], [pw 13 2; mkPg (fl 12) 0 false], 2, [pw 14 3; pw 23 0; pw 33 0])
+      | None => False
+      end
+  | None => False
+  end.
+Proof. exact restart_database_example. Qed.
